@@ -93,6 +93,17 @@ def roles_partition(chk):
                 f2 = b_and(b_and(g, b_not(o)), b_not(T))
                 if viol(f2):
                     bad = ('generated-as-recorded-not-target', f2)
+            # together they cover exactly the known files that exist or were generated
+            if bad is None:
+                f3 = b_and(g if not exists else True, b_and(b_not(S), b_not(T)))
+                if viol(f3):
+                    bad = ('existing-or-generated-file-in-neither-list', f3)
+                    chk.goal('roles: a generated file that no longer exists is met', not exists)
+            if bad is None and not exists:
+                chk.goal('roles: a generated file that no longer exists is met', viol(g))
+                f4 = b_and(b_not(g), b_or(S, T))
+                if viol(f4):
+                    bad = ('vanished-non-generated-file-listed', f4)
         if bad:
             m = model_of(eng, w, R, ids, bad[1] if not isinstance(bad[1], bool) else None)
             mm = eng.model(bad[1] if not isinstance(bad[1], bool) else None)
